@@ -298,8 +298,9 @@ class Monitor:
             mm.n_sell[t] = mm.n_sell.get(t, 0) + 1
         if is_mkt:
             self.probe("market_order_accepted")
-        if "C06" in self.on and log.time != market.get_time():
+        if ("C06" in self.on or "C10" in self.on) and log.time != market.get_time():
             self.viol("C06", "order_time", {"market": mm.name, "log": log.time, "now": market.get_time()})
+            self.viol("C10", "order_log_fields", {"market": mm.name, "time": log.time, "now": market.get_time()})
         # C19: rounding relation between the price handed to the market and the accepted price
         if "C19" in self.on and inf is not None and not is_mkt and inf["price"] is not None:
             self.check_rounding(mm, inf["price"], log.price, log.is_buy)
@@ -375,8 +376,9 @@ class Monitor:
                 self.viol("C04", "cancel_flag", {"market": mm.name, "order": o.brief()})
         if o.obj is not None and "C04" in self.on and not o.obj.is_canceled:
             self.viol("C04", "cancel_flag", {"market": mm.name, "order": o.brief()})
-        if "C06" in self.on and log.cancel_time != market.get_time():
+        if ("C06" in self.on or "C10" in self.on) and log.cancel_time != market.get_time():
             self.viol("C06", "cancel_time", {"market": mm.name, "log": log.cancel_time, "now": market.get_time()})
+            self.viol("C10", "cancel_log_fields", {"market": mm.name, "cancel_time": log.cancel_time, "now": market.get_time()})
         self.check_log_fields("C", log, o, mm)
         self.after_book_event(market, mm, "cancel")
         for p in self.plugins:
@@ -462,8 +464,12 @@ class Monitor:
                 self.viol("C01", "price_above_buy_limit", {"market": mm.name, "price": log.price, "buy": b.brief(), "sell": s.brief()})
             if not s.is_mkt and log.price < s.price:
                 self.viol("C01", "price_below_sell_limit", {"market": mm.name, "price": log.price, "buy": b.brief(), "sell": s.brief()})
-        if "C06" in self.on and log.time != market.get_time():
+        if ("C06" in self.on or "C10" in self.on) and log.time != market.get_time():
             self.viol("C06", "fill_time", {"market": mm.name, "log": log.time, "now": market.get_time()})
+            self.viol("C10", "execution_log_fields", {"market": mm.name, "time": log.time, "now": market.get_time()})
+        if "C10" in self.on and (log.buy_agent_id != b.agent or log.sell_agent_id != s.agent or log.market_id != b.mkt):
+            self.viol("C10", "execution_log_fields", {"market": mm.name, "log": [log.buy_agent_id, log.sell_agent_id],
+                                                      "model": [b.agent, s.agent]})
         if b.agent == s.agent:
             self.probe("self_trade")
         if b.is_mkt and s.is_mkt:
